@@ -22,6 +22,7 @@ pub fn def() -> PropDef {
         flavours: &["tokio"],
         outcome: None,
         extra_profiles: &["C01", "C02", "C03", "C06", "C10", "C11", "C12", "C13", "C17"],
+        adapt: None,
     }
 }
 
